@@ -1010,7 +1010,7 @@ def pushReads (d : Disk) : List Label → List (Name × Item × Option Val) → 
 structure Solo (d : Disk) (t : TxId) (acc : List (Name × Item × Option Val)) (s : State) : Prop where
   tx : ∃ tx, s.txs t = some tx ∧ tx.isWrite = false ∧ tx.view = d ∧ tx.obs = acc ∧ tx.u1 = false ∧ tx.u3 = false ∧
     ∀ n o, tx.cur n = some o → ∃ ob, s.objs o = some ob ∧ ob.name = n ∧ ob.owner = t ∧ Agree ob n d
-  map : ∀ n o, s.map n = some o → ∃ ob, s.objs o = some ob ∧ ob.name = n ∧ ob.writer = none ∧ Agree ob n d
+  map : ∀ n o, s.map n = some o → ∃ ob, s.objs o = some ob ∧ ob.name = n ∧ Agree ob n d
   bound : ∀ o ob, s.objs o = some ob → o < s.nextObj
 
 theorem cacheFill_name (ob : Obj) (i : Item) (r : Option Val) (k : Nat) : (cacheFill ob i r k).name = ob.name := by
@@ -1029,7 +1029,7 @@ theorem bound_upd {objs : ObjId → Option Obj} {nx : Nat} (hb : ∀ o ob, objs 
 
 /-- the manager's object for `n`, with what is known about it -/
 theorem solo_map_obj {d t acc s} (h : Solo d t acc s) {n o ob} (hm : s.map n = some o) (ho : s.objs o = some ob) :
-    ob.name = n ∧ ob.writer = none ∧ Agree ob n d := by
+    ob.name = n ∧ Agree ob n d := by
   obtain ⟨ob', ho', h1⟩ := h.map n o hm
   rw [ho] at ho'; simp only [Option.some.injEq] at ho'; subst ho'; exact h1
 
@@ -1048,16 +1048,16 @@ theorem solo_step {d : Disk} {t : TxId} {acc} {s s' : State} {l : Label} (h : So
     obtain ⟨tx, o, ob', nx, mp, ht, hop, hc, hcase, rfl⟩ := stepAccess_some hs
     rw [ht0] at ht; simp only [Option.some.injEq] at ht; subst ht
     simp only [pushReads, withAccess]
-    have hob' : ob'.name = n ∧ ob'.owner = u ∧ ob'.writer = none ∧ Agree ob' n d := by
+    have hob' : ob'.name = n ∧ ob'.owner = u ∧ Agree ob' n d := by
       cases hcase with
       | fresh inMap _ _ =>
         rw [if_neg (by simp [hw0])]
-        exact ⟨rfl, rfl, rfl, agree_fresh _ _ _ _ _ _ _⟩
+        exact ⟨rfl, rfl, agree_fresh _ _ _ _ _ _ _⟩
       | existing o ob hsh hm ho hwn hr =>
         have := hmapo hm ho
         unfold takeShared
         rw [if_neg (by simp [hw0])]
-        exact ⟨this.1, rfl, hwn, agree_congr this.2.2 rfl rfl⟩
+        exact ⟨this.1, rfl, agree_congr this.2 rfl rfl⟩
     -- an object of another index is not the one handed out
     have hother : ∀ m o1 ob1, m ≠ n → s.objs o1 = some ob1 → ob1.name = m → o1 ≠ o := by
       intro m o1 ob1 hmn hob1 hn1 e
@@ -1077,7 +1077,7 @@ theorem solo_step {d : Disk} {t : TxId} {acc} {s s' : State} {l : Label} (h : So
       dsimp only at hcm ⊢
       rcases upd_opt_cases hcm with ⟨rfl, hx⟩ | ⟨hmn, hold⟩
       · simp only [Option.some.injEq] at hx; subst hx
-        exact ⟨ob', upd_same _ _ _, hob'.1, hob'.2.1, hob'.2.2.2⟩
+        exact ⟨ob', upd_same _ _ _, hob'.1, hob'.2.1, hob'.2.2⟩
       · obtain ⟨ob1, hob1, hn1, how1, hag1⟩ := hcur0 m o' hold
         exact ⟨ob1, by rw [upd_other _ _ _ _ (hother m o' ob1 hmn hob1 hn1)]; exact hob1, hn1, how1, hag1⟩
     · intro m o' hm
@@ -1095,14 +1095,14 @@ theorem solo_step {d : Disk} {t : TxId} {acc} {s s' : State} {l : Label} (h : So
             · exact Or.inr hold
         | existing o2 ob2 hsh hm2 ho hwn hr => exact Or.inr hm
       rcases hcases with ⟨rfl, rfl⟩ | hold
-      · exact ⟨ob', upd_same _ _ _, hob'.1, hob'.2.2.1, hob'.2.2.2⟩
-      · obtain ⟨ob1, hob1, hn1, hw1, hag1⟩ := hmap m o' hold
+      · exact ⟨ob', upd_same _ _ _, hob'.1, hob'.2.2⟩
+      · obtain ⟨ob1, hob1, hn1, hag1⟩ := hmap m o' hold
         by_cases emn : m = n
         · subst emn
           by_cases e : o' = o
-          · subst e; exact ⟨ob', upd_same _ _ _, hob'.1, hob'.2.2.1, hob'.2.2.2⟩
-          · exact ⟨ob1, by rw [upd_other _ _ _ _ e]; exact hob1, hn1, hw1, hag1⟩
-        · exact ⟨ob1, by rw [upd_other _ _ _ _ (hother m o' ob1 emn hob1 hn1)]; exact hob1, hn1, hw1, hag1⟩
+          · subst e; exact ⟨ob', upd_same _ _ _, hob'.1, hob'.2.2⟩
+          · exact ⟨ob1, by rw [upd_other _ _ _ _ e]; exact hob1, hn1, hag1⟩
+        · exact ⟨ob1, by rw [upd_other _ _ _ _ (hother m o' ob1 emn hob1 hn1)]; exact hob1, hn1, hag1⟩
   | leave u n =>
     simp only [Label.soloR, beq_iff_eq] at hl; subst hl
     obtain ⟨tx, o, ob, ht, hw, hc, ho, rfl⟩ := stepLeave_some hs
@@ -1124,12 +1124,12 @@ theorem solo_step {d : Disk} {t : TxId} {acc} {s s' : State} {l : Label} (h : So
       · exact ⟨ob1, by rw [upd_other _ _ _ _ e]; exact hob1, hn1, how1, hag1⟩
     · intro m o' hm
       dsimp only at hm ⊢
-      obtain ⟨ob1, hob1, hn1, hw1, hag1⟩ := hmap m o' hm
+      obtain ⟨ob1, hob1, hn1, hag1⟩ := hmap m o' hm
       by_cases e : o' = o
       · subst e
         rw [ho] at hob1; simp only [Option.some.injEq] at hob1; subst hob1
-        exact ⟨_, upd_same _ _ _, hn1, hw1, agree_congr hag1 rfl rfl⟩
-      · exact ⟨ob1, by rw [upd_other _ _ _ _ e]; exact hob1, hn1, hw1, hag1⟩
+        exact ⟨_, upd_same _ _ _, hn1, agree_congr hag1 rfl rfl⟩
+      · exact ⟨ob1, by rw [upd_other _ _ _ _ e]; exact hob1, hn1, hag1⟩
   | read u n i =>
     simp only [Label.soloR, beq_iff_eq] at hl; subst hl
     obtain ⟨tx, o, ob, ht, hop, hc, ho, hcase⟩ := stepRead_some hs
@@ -1170,14 +1170,14 @@ theorem solo_step {d : Disk} {t : TxId} {acc} {s s' : State} {l : Label} (h : So
         · exact ⟨ob1, by rw [upd_other _ _ _ _ e]; exact hob1, hn1, how1, hag1⟩
       · intro m o' hm
         dsimp only at hm ⊢
-        obtain ⟨ob1, hob1, hn1, hw1, hag1⟩ := hmap m o' hm
+        obtain ⟨ob1, hob1, hn1, hag1⟩ := hmap m o' hm
         by_cases e : o' = o
         · subst e
           rw [ho] at hob1; simp only [Option.some.injEq] at hob1; subst hob1
           have emn : m = n := hn1.symm.trans hname
           subst emn
-          exact ⟨_, upd_same _ _ _, (cacheFill_name _ _ _ _).trans hn1, (cacheFill_writer _ _ _ _).trans hw1, hfill⟩
-        · exact ⟨ob1, by rw [upd_other _ _ _ _ e]; exact hob1, hn1, hw1, hag1⟩
+          exact ⟨_, upd_same _ _ _, (cacheFill_name _ _ _ _).trans hn1, hfill⟩
+        · exact ⟨ob1, by rw [upd_other _ _ _ _ e]; exact hob1, hn1, hag1⟩
   | backfill u i =>
     simp only [Label.soloR, beq_iff_eq] at hl; subst hl
     obtain ⟨tx, ht, hw, hop, hseen, hcase⟩ := stepBackfill_some hs
@@ -2923,5 +2923,69 @@ theorem runNO_inv : ∀ (sched : List Label) (s s' : State), NOInv s ∧ ObsInv 
     | some s1 =>
       simp only [hs] at h
       exact ih s1 s' ⟨noInv_stepNO hp.1 hs, obsInv_step hp.2 (no_coh hp.1) (stepNO_step hs)⟩ h
+
+
+/-! ### definitions used by the statements in Props.lean -/
+
+/-- items 1, 2, 3 (and 7, the point a writer deletes in w2b) in index 0, each with a point record -/
+def exDisk : Disk :=
+  { idx := fun n i => if n = 0 ∧ (i = 1 ∨ i = 2 ∨ i = 3 ∨ i = 7) then some i else none,
+    pts := fun i => if i = 1 ∨ i = 2 ∨ i = 3 ∨ i = 7 then some i else none }
+
+theorem exDisk_WF : exDisk.WF := by
+  intro n i h
+  simp only [exDisk] at h ⊢
+  split at h
+  · rename_i hc; simp [hc.2]
+  · exact absurd rfl h
+
+def badOf (o : Option State) : Option Bad := match o with | some s => s.bad | none => none
+def flagsOf (o : Option State) (t : TxId) : Option (Bool × Bool × Bool) :=
+  match o with
+  | some s => (s.txs t).map fun tx => (tx.u1, tx.u2, tx.u3)
+  | none => none
+
+/-- w1: readers 1 and 2 share the new cache object of index 0; 2 called `UpdateBucket` last and ends;
+1 reads an item that is not cached: through the dead handle of 2 -/
+def w1 : List Label :=
+  [.beginR 1, .access 1 0, .read 1 0 1, .beginR 2, .access 2 0, .read 2 0 1, .read 2 0 3, .leave 2 0, .closeTx 2 true,
+   .read 1 0 2]
+
+/-- w2a: reader 1 begins; writer 2 inserts item 8 (with its point), commits and releases the cache;
+reader 1 finds 8 in the shared cache and back-fills it from its own snapshot -/
+def w2a : List Label :=
+  [.beginR 1, .beginW 2, .access 2 0, .wr 2 (.setPt 8 208), .wr 2 (.put 0 8 208), .closeTx 2 true, .release 2 0,
+   .access 1 0, .read 1 0 8, .leave 1 0, .backfill 1 8]
+
+/-- w2b: reader 1 begins; writer 2 deletes item 7, commits and releases; reader 1 reads 7 through the
+shared cache (a miss: read from its old snapshot and cached); it ends; reader 3, which began after
+everything else had ended, hits the stale 7 and back-fills it from its snapshot -/
+def w2b : List Label :=
+  [.beginR 1, .beginW 2, .access 2 0, .wr 2 (.del 0 7), .wr 2 (.delPt 7), .closeTx 2 true, .release 2 0,
+   .access 1 0, .read 1 0 7, .leave 1 0, .backfill 1 7, .closeTx 1 true,
+   .beginR 3, .access 3 0, .read 3 0 7, .leave 3 0, .backfill 3 7]
+
+/-- the sequential version of w2b: the same three transactions one after the other (passes the
+no-overlap discipline) -/
+def seqb : List Label :=
+  [.beginW 2, .access 2 0, .wr 2 (.del 0 7), .wr 2 (.delPt 7), .closeTx 2 true, .release 2 0,
+   .beginR 1, .access 1 0, .read 1 0 7, .read 1 0 1, .leave 1 0, .backfill 1 1, .closeTx 1 true,
+   .beginR 3, .access 3 0, .read 3 0 1, .read 3 0 2, .leave 3 0, .backfill 3 2, .closeTx 3 true]
+
+/-- The cache-coherence invariant of the quiescent state: every object in the manager's map is an
+object of that index and every item it caches is what the latest committed disk holds; object ids
+are allocated. -/
+structure Coherent (s : State) : Prop where
+  map : ∀ n o, s.map n = some o → ∃ ob, s.objs o = some ob ∧ ob.name = n ∧ Agree ob n s.latest
+  bound : ∀ o ob, s.objs o = some ob → o < s.nextObj
+
+/-- every transaction that ever used a cache is done with it -/
+def Quiescent (s : State) : Prop := ∀ n u, u ∈ s.users n → Done s u n
+
+theorem noInv_coherent {s : State} (h : NOInv s) (hq : Quiescent s) : Coherent s := by
+  refine ⟨?_, h.bound⟩
+  intro n o hm
+  obtain ⟨ob, hob, hn, _, hb⟩ := h.map n o hm
+  exact ⟨ob, hob, hn, hb (hq n)⟩
 
 end Sema.C09
